@@ -5,6 +5,7 @@ import (
 	"math/rand"
 	"os"
 	"path/filepath"
+	"regexp"
 	"strings"
 	"time"
 
@@ -17,6 +18,8 @@ var c09Bal = [][]string{
 	{"balance", "--color=false", "-a", "--months", "--diff", "--digits", "4"},
 	{"balance", "--color=false", "-a", "--weeks", "--last", "4", "--close=false"},
 }
+
+var rePriceLine = regexp.MustCompile(`(?m)^\S+[ \t]+price[ \t]+(\S+)[ \t]+\S+[ \t]+(\S+)`)
 
 func observePrint(bin, dir string, id int, j *kj.Journal, valued bool, cs map[string]any) {
 	observePrintText(bin, dir, id, j.Render(), valued, cs)
@@ -48,6 +51,16 @@ func observePrintText(bin, dir string, id int, text string, valued bool, cs map[
 	bals := c09Bal
 	if valued {
 		bals = append(append([][]string{}, c09Bal...), []string{"balance", "--color=false", "-a", "-v", "CHF", "--months", "--digits", "8"})
+		// valued in every commodity that occurs in a price directive (inverse and chained prices, many decimals)
+		seenV := map[string]bool{"CHF": true}
+		for _, m := range rePriceLine.FindAllStringSubmatch(text, -1) {
+			for _, v := range []string{m[1], m[2]} {
+				if !seenV[v] && len(seenV) < 5 {
+					seenV[v] = true
+					bals = append(bals, []string{"balance", "--color=false", "-a", "-v", v, "--digits", "8"})
+				}
+			}
+		}
 	}
 	var b1, b2 []any
 	var diff string
